@@ -35,6 +35,9 @@ LIB_RAISES = {
     "datetime.fromisoformat": ("ValueError",),
     "date.fromisoformat": ("ValueError",),
     "datetime.strptime": ("ValueError",),
+    # the math module converts its argument to a C double first: an int beyond 1.8e308 raises OverflowError
+    **{f"math.{f}": ("OverflowError",) for f in ("isfinite", "isnan", "isinf", "fabs", "copysign", "fmod", "frexp", "modf", "ldexp")},
+    **{f"math.{f}": ("OverflowError", "ValueError") for f in ("floor", "ceil", "trunc", "sqrt", "log", "log2", "log10", "exp", "pow", "fsum")},
 }
 EXEMPTED: list[str] = []
 _BUILTIN_BASES = {"re.error": ("Exception",), "yaml.YAMLError": ("Exception",)}
